@@ -142,6 +142,12 @@ def main():
     server = spawn_server(('127.0.0.1', 0))
     out = []
     try:
+        # a process that has used the persistent factory before (as every Pool does): the one-shot factory must not care
+        from pyworkers.persistent import PersistentWorker
+        from pyworkers.worker import WorkerType
+        for wt, kw in ((WorkerType.THREAD, {}), (WorkerType.PROCESS, {}), (WorkerType.REMOTE, {'host': server.addr})):
+            pw = PersistentWorker.create(wt, V.mod_echo, **kw)
+            pw.wait(timeout=10)
         for scn in scns:
             if scn['target_none']:
                 dkind, val = 'ret', None
